@@ -295,3 +295,34 @@ def is_pos_plus(v, n):
         if is_self_pos(b) and a == n:
             return True
     return False
+
+
+def rule_flush_forward(u, rep, rule="FLUSH-FWD"):
+    """Every wrapper that implements WriteNoStd around another writer (it has the inner writer in a field) forwards
+    flush to it and returns its result: a wrapper that answers Ok(()) itself turns the final flush of serialize
+    into a no-op, and a buffering backend then loses its last bytes (and their error) at drop time."""
+    n = 0
+    for im in u.impls:
+        if not im.trait or not im.trait.endswith("::WriteNoStd") or im.crate.name != "epserde":
+            continue
+        if im.self_ty[0] != "adt":
+            continue            # the blanket impl over std::io::Write is BLANKET's business
+        bid = im.item_id("flush")
+        b = u.body(bid) if bid else None
+        if b is None or b.thir is None:
+            continue
+        ip, paths = run_method(u, b)
+        n += 1
+        oks = [p for p in paths if outcome_of(u, p)[0] in ("ok", "ok?") or (p.kind == "ret")]
+        good = True
+        for p in paths:
+            if p.kind != "ret":
+                continue
+            fl = [e for e in p.events if e[0] == "W" and e[2] == "Flush"]
+            if not fl:
+                good = False
+        rep.oblige(good)
+        if not good:
+            rep.add(rule, ty_str(im.self_ty).split("<")[0], "`%s`::flush has a path that returns without flushing the writer it wraps" % ty_str(im.self_ty), b.loc())
+    rep.count("flush_wrappers", n)
+    return n
